@@ -5,7 +5,6 @@ Local Open Scope Z_scope.
 Ltac Zify.zify_post_hook ::= Z.to_euclidean_division_equations.
 
 Theorem dur_print_ok P R c : rep2 R -> fits R c = true -> c <> 0 ->
-  (R = I32 -> Z.quot c (unit_ticks P 86400) <> -2147483648) ->
   let u1 := unit_ticks P 86400 in let u2 := unit_ticks P 3600 in let u3 := unit_ticks P 60 in let u4 := unit_ticks P 1 in
   let r1 := Z.rem c u1 in let r2 := Z.rem r1 u2 in let r3 := Z.rem r2 u3 in
   let q4 := Z.quot r3 u4 in let r4 := Z.rem r3 u4 in
@@ -16,19 +15,19 @@ Theorem dur_print_ok P R c : rep2 R -> fits R c = true -> c <> 0 ->
        (r3 <> 0 /\ exists ds, sectext = dec (Z.abs q4) ++ [c_dot] ++ ds ++ [c_S] /\ all_digits ds = true /\
            (1 <= length ds <= frac_digits P)%nat /\ dec_value ds * p10 (frac_digits P - length ds) = Z.abs r4)).
 Proof.
-  intros HR Hc Hnz H32. cbv zeta.
+  intros HR Hc Hnz. cbv zeta.
   assert (Hc64 : -9223372036854775808 <= c <= 9223372036854775807).
   { apply fits_iff in Hc. destruct HR as [HR | HR]; rewrite HR in Hc; unfold tmin, tmax, half in Hc; cbn [is_signed] in Hc; lia. }
   pose proof (dur_facts P c Hc64) as F. cbv zeta in F.
   set (u1 := unit_ticks P 86400) in *. set (u2 := unit_ticks P 3600) in *. set (u3 := unit_ticks P 60) in *. set (u4 := unit_ticks P 1) in *.
   set (q1 := Z.quot c u1) in *. set (r1 := Z.rem c u1) in *. set (q2 := Z.quot r1 u2) in *. set (r2 := Z.rem r1 u2) in *.
   set (q3 := Z.quot r2 u3) in *. set (r3 := Z.rem r2 u3) in *. set (q4 := Z.quot r3 u4) in *. set (r4 := Z.rem r3 u4) in *.
-  assert (Eu1 : hide (u1 = unit_ticks P 86400)) by reflexivity. assert (Eu2 : hide (u2 = unit_ticks P 3600)) by reflexivity.
-  assert (Eu3 : hide (u3 = unit_ticks P 60)) by reflexivity. assert (Eu4 : hide (u4 = unit_ticks P 1)) by reflexivity.
-  assert (Eq1 : hide (q1 = Z.quot c u1)) by reflexivity. assert (Er1 : hide (r1 = Z.rem c u1)) by reflexivity.
-  assert (Eq2 : hide (q2 = Z.quot r1 u2)) by reflexivity. assert (Er2 : hide (r2 = Z.rem r1 u2)) by reflexivity.
-  assert (Eq3 : hide (q3 = Z.quot r2 u3)) by reflexivity. assert (Er3 : hide (r3 = Z.rem r2 u3)) by reflexivity.
-  assert (Eq4 : hide (q4 = Z.quot r3 u4)) by reflexivity. assert (Er4 : hide (r4 = Z.rem r3 u4)) by reflexivity.
+  assert (Eu1 : hide (u1 = unit_ticks P 86400)) by (constructor; reflexivity). assert (Eu2 : hide (u2 = unit_ticks P 3600)) by (constructor; reflexivity).
+  assert (Eu3 : hide (u3 = unit_ticks P 60)) by (constructor; reflexivity). assert (Eu4 : hide (u4 = unit_ticks P 1)) by (constructor; reflexivity).
+  assert (Eq1 : hide (q1 = Z.quot c u1)) by (constructor; reflexivity). assert (Er1 : hide (r1 = Z.rem c u1)) by (constructor; reflexivity).
+  assert (Eq2 : hide (q2 = Z.quot r1 u2)) by (constructor; reflexivity). assert (Er2 : hide (r2 = Z.rem r1 u2)) by (constructor; reflexivity).
+  assert (Eq3 : hide (q3 = Z.quot r2 u3)) by (constructor; reflexivity). assert (Er3 : hide (r3 = Z.rem r2 u3)) by (constructor; reflexivity).
+  assert (Eq4 : hide (q4 = Z.quot r3 u4)) by (constructor; reflexivity). assert (Er4 : hide (r4 = Z.rem r3 u4)) by (constructor; reflexivity).
   clearbody r4 q4 r3 q3 r2 q2 r1 q1 u4 u3 u2 u1.
   destruct F as (Hu1 & B1 & B2 & B3 & B4 & Z2 & Z3 & Z4 & Hns & Hss & A1 & A2 & A3 & Hpos & Hneg & Hsum).
   pose proof (rep_bounds R) as HB. pose proof Hc as Hcf. apply fits_iff in Hc.
@@ -40,9 +39,6 @@ Proof.
   destruct (opt_comp_len q2 c_H 2 ltac:(change (p10 2) with 100; clear - B2; lia) ltac:(lia)) as [L2 L2'].
   destruct (opt_comp_len q3 c_M 2 ltac:(change (p10 2) with 100; clear - B3; lia) ltac:(lia)) as [L3 L3'].
   destruct (opt_comp_len q4 c_S 2 ltac:(change (p10 2) with 100; clear - B4; lia) ltac:(lia)) as [L4 L4'].
-  assert (N2 : q2 <> -2147483648) by (clear - B2; lia).
-  assert (N3 : q3 <> -2147483648) by (clear - B3; lia).
-  assert (N4 : q4 <> -2147483648) by (clear - B4; lia).
   assert (Hcnz : (c =? 0) = false) by (clear - Hnz; lia).
   clear Hsum Hpos Hneg A1 A2 A3 B1 B2 B3 B4 Hc Hc64 HB.
   unfold dur_print. rewrite Hcnz.
@@ -52,15 +48,15 @@ Proof.
   { unfold st0, sign_text. destruct (c <? 0); reflexivity. }
   rewrite E0, bind_ok. cbn [fst snd].
   assert (Ls : (length (sign_text c) <= 1)%nat) by (unfold sign_text; destruct (c <? 0); cbn; lia).
-  unfold put at 1. replace ((0 <=? _) && (_ <? BufSize)) with true by (unfold BufSize; lia).
+  unfold put at 1. replace ((0 <=? _) && (_ <? BufSize)) with true by (unfold BufSize; clear - Ls; lia).
   rewrite bind_ok. cbn [fst snd].
   (* days *)
   rewrite (pstep P R 86400 false c_D c); try assumption; try discriminate;
-    [| unfold unit_x; auto | refold; clear - Hu1; lia | refold; exact H32 | lia | refold; lia].
+    [| unfold unit_x; auto | refold; clear - Hu1; lia | clear - Ls; lia | refold; clear - Ls L1' HdK; lia].
   refold. rewrite bind_ok.
   set (pos1 := Z.of_nat (length (sign_text c)) + 1 + Z.of_nat (length (opt_comp q1 c_D))).
   set (content1 := (sign_text c ++ [c_P]) ++ opt_comp q1 c_D).
-  assert (Hp1 : 0 <= pos1 <= Z.of_nat (dK P) + 3) by (unfold pos1; lia).
+  assert (Hp1 : 0 <= pos1 <= Z.of_nat (dK P) + 3) by (unfold pos1; clear - Ls L1; lia).
   unfold dur_tail. cbv zeta. refold.
   destruct (Z.eqb_spec r1 0) as [Ez1|Ez1]; cbn [negb].
   - (* nothing but days *)
@@ -69,29 +65,29 @@ Proof.
     assert (Hr3 : r3 = 0).
     { apply unhide in Er2, Er3. rewrite Ez1 in Er2. rewrite Zrem_0_l in Er2. rewrite Er2 in Er3. rewrite Zrem_0_l in Er3. exact Er3. }
     split; intros Hs; rewrite Hs; [reflexivity | left; split; [exact Hr3 | reflexivity]].
-  - unfold put at 1. replace ((0 <=? pos1) && (pos1 <? BufSize)) with true by (unfold BufSize; lia).
+  - unfold put at 1. replace ((0 <=? pos1) && (pos1 <? BufSize)) with true by (unfold BufSize; clear - Hp1 HdK; lia).
     rewrite bind_ok. cbn [fst snd].
     (* hours *)
     rewrite (pstep P R 3600 false c_H r1); try assumption; try discriminate;
-      [| unfold unit_x; auto | refold; exact Z2 | refold; intros _; exact N2 | lia | refold; lia].
+      [| unfold unit_x; auto | refold; exact Z2 | clear - Hp1; lia | refold; clear - Hp1 L2' HdK; lia].
     refold. rewrite bind_ok.
     (* minutes *)
     rewrite (pstep P R 60 false c_M r2); try assumption; try discriminate;
-      [| unfold unit_x; auto | refold; exact Z3 | refold; intros _; exact N3 | lia | refold; lia].
+      [| unfold unit_x; auto | refold; exact Z3 | clear - Hp1 L2; lia | refold; clear - Hp1 L2 L3' HdK; lia].
     refold.
     set (pos3 := pos1 + 1 + Z.of_nat (length (opt_comp q2 c_H)) + Z.of_nat (length (opt_comp q3 c_M))).
     set (content3 := ((content1 ++ [c_T]) ++ opt_comp q2 c_H) ++ opt_comp q3 c_M).
-    assert (Hp3 : 0 <= pos3 <= Z.of_nat (dK P) + 10) by (unfold pos3; lia).
+    assert (Hp3 : 0 <= pos3 <= Z.of_nat (dK P) + 10) by (unfold pos3; clear - Hp1 L2 L3; lia).
     rewrite bind_ok.
     destruct (sub_second P) eqn:Hsub.
     + destruct (Hss eq_refl) as [Hu4 Hr3b].
-      assert (Hu4' : 1 <= u4) by (rewrite Hu4; destruct P; try discriminate Hsub; cbn; lia).
+      assert (Hu4' : 1 <= u4) by (rewrite Hu4; destruct P; try discriminate Hsub; vm_compute; discriminate).
       destruct (Z.eq_dec r3 0) as [Ez3|Ez3].
       * rewrite Ez3. rewrite sec_step_zero by (try assumption; refold; exact Hu4'). rewrite bind_ok. cbn [snd].
         exists []. split; [unfold content3, content1; rewrite <- !app_assoc, app_nil_r; reflexivity|].
         split; [discriminate | intros _; left; split; [reflexivity | reflexivity]].
-      * assert (Hw : Z.of_nat (dK P) + 10 + 3 + Z.of_nat (frac_digits P) <= 31) by (destruct P; try discriminate Hsub; cbn; lia).
-        destruct (sec_step_frac P R r3 pos3 content3 HR Hsub Hf3 Ez3 Hr3b ltac:(lia) ltac:(lia))
+      * assert (Hw : Z.of_nat (dK P) + 10 + 3 + Z.of_nat (frac_digits P) <= 47) by (destruct P; try discriminate Hsub; vm_compute; discriminate).
+        destruct (sec_step_frac P R r3 pos3 content3 HR Hsub Hf3 Ez3 Hr3b ltac:(clear - Hp3; lia) ltac:(clear - Hp3 Hw; lia))
           as (ds & Ef & Hds & Hl & Hv).
         rewrite Ef, bind_ok. cbn [snd].
         destruct (quot_rem_facts r3 u4 Hu4') as (_ & _ & _ & _ & _ & _ & _ & Aq & Ar).
@@ -101,8 +97,8 @@ Proof.
         split; [unfold content3, content1; rewrite <- !app_assoc; reflexivity|].
         split; [discriminate | intros _; right; split; [exact Ez3|]]. exists ds. auto.
     + rewrite (pstep P R 1 true c_S r3); try assumption; try discriminate;
-        [| unfold unit_x; auto | refold; exact Z4 | intros _; reflexivity | refold; intros _; apply Hns; reflexivity
-         | refold; intros _; exact N4 | lia | refold; lia].
+        [| unfold unit_x; auto | refold; exact Z4 | intros _; exact Hsub | refold; intros _; apply Hns; reflexivity
+         | clear - Hp3; lia | refold; clear - Hp3 L4' HdK; lia].
       refold. rewrite bind_ok. cbn [snd].
       exists (opt_comp q4 c_S). split; [unfold content3, content1; rewrite <- !app_assoc; reflexivity|].
       split; [reflexivity | discriminate].
